@@ -67,6 +67,14 @@ def un(op, x):
         return X(f"(2*{x.l})", f"(2*{x.e})", x.depth + 1, x.ev, x.usesD)
     if op == "half":
         return X(f"({x.l}/2)", f"({x.e}/2)", x.depth + 1, x.ev, x.usesD)
+    if op == "rsub":     # number on the left of a non-commutative operator
+        return X(f"(2 - {x.l})", f"(2 - {x.e})", x.depth + 1, x.ev, x.usesD)
+    if op == "rdiv":
+        return X(f"(3 / {x.l})", f"(3 / {x.e})", x.depth + 1, x.ev, x.usesD)
+    if op == "subs":
+        return X(f"({x.l} - 2)", f"({x.e} - 2)", x.depth + 1, x.ev, x.usesD)
+    if op == "radd":
+        return X(f"(2 + {x.l})", f"(2 + {x.e})", x.depth + 1, x.ev, x.usesD)
     raise ValueError(op)
 
 
@@ -82,6 +90,7 @@ def statements(tier):
         for Z in (Cc, Dd):
             d2 += [ew("+", L, Z), ew("+", Z, L), ew("-", L, Z), ew("-", Z, L), ew("*", L, Z), ew("*", Z, L)]
         d2 += [un("twice", L), un("neg", L), un("abs", L), un("sqrtabs", L), un("half", L)]
+        d2 += [un("rsub", L), un("rdiv", L), un("subs", L), un("radd", L), ew("*", un("rsub", L), Dd), ew("+", un("rdiv", L), Cc)]
         # the destination inside an element-wise sub-expression next to the evaluation-requiring term
         for Zw in (un("abs", Dd), ew("*", Dd, Cc), ew("*", Cc, Dd), un("twice", Dd), ew("*", Dd, Dd)):
             d2 += [ew("+", L, Zw), ew("-", Zw, L), ew("-", L, Zw)]
@@ -116,7 +125,7 @@ def statements(tier):
         cnt = {}
         for x, g in out:
             cnt[g] = cnt.get(g, 0) + 1
-            if g in ("ev1", "ev_over_ew", "ev_over_ev") or (g == "ew_over_ev" and (cnt[g] % 2 == 1 or "D" in x.l)) or (g == "depth3" and cnt[g] % 4 == 1):
+            if g in ("ev1", "ev_over_ew", "ev_over_ev") or (g == "ew_over_ev" and (cnt[g] % 2 == 1 or "D" in x.l or "(2 - " in x.l or "(3 / " in x.l)) or (g == "depth3" and cnt[g] % 4 == 1):
                 keep.append((x, g))
         out = keep
     return out
